@@ -20,7 +20,13 @@ def m_apply_if_rows(v, params):
 
 def m_headform(v, params):
     # C06-K1 seen through the debugger: a form whose head is a pair
-    return v["kind"] in ("terminal-row-differs", "false-row") and (v.get("family") != "replay" or v.get("model_explains") in ("yes", "unknown")) and (cc.contains_headform(v["case"]["prog"]) or cc.contains_headform(v["case"]["env"]))
+    # (enumerated terms: the specification's rows must equal the observed ones; random programs: the head form must be in
+    # the program itself, data in the environment is only a head form if it is applied, and then the program has an a)
+    if v["kind"] not in ("terminal-row-differs", "false-row"):
+        return False
+    if v.get("family") == "replay":
+        return v.get("model_explains") in ("yes", "unknown") and (cc.contains_headform(v["case"]["prog"]) or cc.contains_headform(v["case"]["env"]))
+    return cc.contains_headform(v["case"]["prog"])
 
 
 MATCHERS = {"apply_if_rows": m_apply_if_rows, "headform": m_headform}
